@@ -26,6 +26,7 @@ type Clause struct {
 	Line  string // file:line of the clause (for messages only)
 	GenFn string // name of generated function
 	Props []string // optional per-clause property override
+	Assumed bool   // label starts with "assumed": used at call sites, not checked on the body (trusted base)
 	Locals []string
 }
 
@@ -40,6 +41,7 @@ type Contract struct {
 	Modifies []string
 	Decreases *Clause
 	CallbackInv []*Clause
+	CrashInv []*Clause
 	ModFn    string
 	Inline   bool
 	Pure     bool
@@ -69,7 +71,7 @@ type ContractSet struct {
 	// per package: extra Go source from the generator
 }
 
-var kwRe = regexp.MustCompile(`^(pred|func|ext|iface|lemma|requires|ensures|modifies|loop|inline|pure|trusted|opaque|serves|uses|maypanic|attr|decreases|callbackinv)\b`)
+var kwRe = regexp.MustCompile(`^(pred|func|ext|iface|lemma|requires|ensures|modifies|loop|inline|pure|trusted|opaque|serves|uses|maypanic|attr|decreases|callbackinv|crashinv)\b`)
 
 // parseContractComments extracts contracts from the //@ lines of a file.
 func parseContractComments(fset *token.FileSet, f *ast.File, pkgPath string) ([]*Contract, error) {
@@ -151,7 +153,7 @@ func parseContractComments(fset *token.FileSet, f *ast.File, pkgPath string) ([]
 				switch m {
 				case "requires", "ensures":
 					label, props, e := splitLabel(rest)
-					cl := &Clause{Kind: m, Label: label, Props: props, Expr: e, Line: where}
+					cl := &Clause{Kind: m, Label: label, Props: props, Expr: e, Line: where, Assumed: strings.HasPrefix(label, "assumed")}
 					if m == "requires" {
 						cur.Requires = append(cur.Requires, cl)
 					} else {
@@ -183,6 +185,11 @@ func parseContractComments(fset *token.FileSet, f *ast.File, pkgPath string) ([]
 					label, _, e := splitLabel(strings.TrimSpace(r2[len(kind):]))
 					cl := &Clause{Kind: kind, Label: label, Expr: e, Loop: n, Line: where}
 					cur.Loops[n] = append(cur.Loops[n], cl)
+					lastClause = cl
+				case "crashinv":
+					lb, _, ex := splitLabel(rest)
+					cl := &Clause{Kind: "crashinv", Label: lb, Expr: ex, Line: where}
+					cur.CrashInv = append(cur.CrashInv, cl)
 					lastClause = cl
 				case "callbackinv":
 					cl := &Clause{Kind: "callbackinv", Expr: rest, Line: where}
@@ -561,6 +568,7 @@ func vcModElems[T any](s []T)                {}
 func vcModMap[K comparable, V any](m map[K]V) {}
 func vcFresh[T any](p T) bool                { return true }
 func vcModGhost[T any](name string, obj T)    {}
+func vcModGhostAll(name string)              {}
 func vcSameSlice[T any](a, b []T) bool        { return len(a) == len(b) && (len(a) == 0 || &a[0] == &b[0]) }
 func vcByteStr(c byte) string                { return string([]byte{c}) }
 
@@ -781,7 +789,7 @@ func (g *genCtx) genContract(c *Contract, lp interface{}, out *strings.Builder) 
 	}
 	base := sanitize(strings.TrimPrefix(strings.TrimPrefix(c.Key, "iface:"), c.PkgPath+"."))
 	var fd *ast.FuncDecl
-	if (c.Kind == "func") && len(c.Requires)+len(c.Ensures)+len(c.Loops)+len(c.Modifies)+len(c.CallbackInv) == 0 && c.Decreases == nil {
+	if (c.Kind == "func") && len(c.Requires)+len(c.Ensures)+len(c.Loops)+len(c.Modifies)+len(c.CallbackInv)+len(c.CrashInv) == 0 && c.Decreases == nil {
 		// flags only (inline / opaque / trusted): nothing to generate
 		return nil
 	}
@@ -845,6 +853,11 @@ func (g *genCtx) genContract(c *Contract, lp interface{}, out *strings.Builder) 
 	}
 	for i, cl := range c.Ensures {
 		if err := emit(cl, fmt.Sprintf("vc_post_%s_%d", base, i), all, "bool"); err != nil {
+			return err
+		}
+	}
+	for i, cl := range c.CrashInv {
+		if err := emit(cl, fmt.Sprintf("vc_crash_%s_%d", base, i), params, "bool"); err != nil {
 			return err
 		}
 	}
@@ -923,6 +936,8 @@ func modStmts(ms []string) string {
 			fmt.Fprintf(&b, "vcModElems(%s); ", m[6:len(m)-1])
 		case strings.HasPrefix(m, "mapof(") && strings.HasSuffix(m, ")"):
 			fmt.Fprintf(&b, "vcModMap(%s); ", m[6:len(m)-1])
+		case strings.HasPrefix(m, "allof(") && strings.HasSuffix(m, ")"):
+			fmt.Fprintf(&b, "vcModGhostAll(%q); ", m[6:len(m)-1])
 		case strings.HasPrefix(m, "ghost_") && strings.HasSuffix(m, ")"):
 			i := strings.Index(m, "(")
 			fmt.Fprintf(&b, "vcModGhost(%q, %s); ", m[:i], m[i+1:len(m)-1])
